@@ -1102,6 +1102,13 @@ pub fn generate(seed: u64, prof: Profile, miri: bool) -> RunTrace {
     };
     let mut g = Gen { r: &mut r, prof, slots, maxdim: if sweep { maxdim.min(6) } else { maxdim }, palette, sweep, sweep_pos: 0, populated: vec![false; slots as usize] };
     let mut pre = Vec::new();
+    // some runs start with the logger already in one of its fault modes (every run otherwise
+    // begins with the counting logger at level Warn)
+    if !miri && g.r.pct(if prof == Profile::Metadata { 60 } else { 25 }) {
+        let mut op = Op::blank(Kind::Logger);
+        op.which = g.r.below(6);
+        pre.push(op);
+    }
     // the preamble populates the pool: constructors (mostly well formed so that there is
     // something to convert), one of each class first
     for i in 0..npre {
